@@ -151,11 +151,13 @@ package getty
 //@ ghost var last_send_failed bool
 //@ ghost var commit_xid string
 //@ ghost var rollback_xid string
+//@ ghost var begin_xid string
 //@ func (*GettyRemotingClient).SendSyncRequest
 //@   trusted
 //@   requires client != nil
-//@   modifies ghost.begin_sends, ghost.commit_sends, ghost.rollback_sends, ghost.other_sends, ghost.commit_acked, ghost.rollback_acked, ghost.last_send_failed, ghost.commit_xid, ghost.rollback_xid
+//@   modifies ghost.begin_sends, ghost.commit_sends, ghost.rollback_sends, ghost.other_sends, ghost.commit_acked, ghost.rollback_acked, ghost.last_send_failed, ghost.commit_xid, ghost.rollback_xid, ghost.begin_xid
 //@   ensures ghost.last_send_failed == (result1 != nil)
+//@   ensures result1 == nil && isT(msg, message.GlobalBeginRequest) ==> ghost.begin_xid == result0.(message.GlobalBeginResponse).Xid
 //@   ensures ghost.begin_sends == old(ghost.begin_sends) + ite(isT(msg, message.GlobalBeginRequest), 1, 0)
 //@   ensures ghost.commit_sends == old(ghost.commit_sends) + ite(isT(msg, message.GlobalCommitRequest), 1, 0)
 //@   ensures ghost.rollback_sends == old(ghost.rollback_sends) + ite(isT(msg, message.GlobalRollbackRequest), 1, 0)
